@@ -477,15 +477,53 @@ func checkU5(c *Ctx, p *Prog, fn *ssa.Function, predCalls []*ssa.Call) {
 	c.R.Check(len(problems) == 0, "U5", p.FnKey(fn), p.Pos(fn.Pos()), map[bool]string{true: "1..max upward", false: "max..1 downward"}[upward]+"; loop variable under the predicate, 0 otherwise", strings.Join(dedup(problems), "; "))
 }
 
+// quantityParam: the parameter of a configuration predicate that carries the quantity under test:
+// the uint parameter that every caller feeds with its own parameter or with the variable of its
+// search loop (a value computed by the caller, such as a hoisted reference total, is not it).
+func (p *Prog) quantityParam(fn *ssa.Function) *ssa.Parameter {
+	var cands []*ssa.Parameter
+	for _, par := range fn.Params {
+		if b, ok := par.Type().Underlying().(*types.Basic); ok && b.Kind() == types.Uint {
+			cands = append(cands, par)
+		}
+	}
+	if len(cands) <= 1 {
+		if len(cands) == 1 {
+			return cands[0]
+		}
+		return nil
+	}
+	var out []*ssa.Parameter
+	for _, par := range cands {
+		idx := paramIndex(fn, par)
+		ok := true
+		sites := p.CallSites(fn)
+		for _, cs := range sites {
+			args := cs.Common().Args
+			if idx < 0 || idx >= len(args) {
+				ok = false
+				continue
+			}
+			switch args[idx].(type) {
+			case *ssa.Parameter, *ssa.Phi:
+			default:
+				ok = false
+			}
+		}
+		if ok && len(sites) > 0 {
+			out = append(out, par)
+		}
+	}
+	if len(out) == 1 {
+		return out[0]
+	}
+	return cands[len(cands)-1]
+}
+
 func checkU23(c *Ctx, p *Prog, fn *ssa.Function) {
 	var p2, p3, p4 []string
 	combos := fn.Params[0]
-	var quantity *ssa.Parameter
-	for _, par := range fn.Params {
-		if b, ok := par.Type().Underlying().(*types.Basic); ok && b.Kind() == types.Uint {
-			quantity = par
-		}
-	}
+	quantity := p.quantityParam(fn)
 	// loop shape
 	comps := sccs(fn.Blocks, blockSet(fn.Blocks))
 	if len(comps) != 1 {
